@@ -7,7 +7,7 @@ ID = "C15"
 LEAN_MODULE = "Ctrmml.Properties.C15"
 THEOREMS = ["C15_parse_routed", "C15_reader_never_foreign", "C15_wav_reader_total", "C15_validator_never_out_of_range",
             "C15_validate_routed", "C15_parsed_song_validates", "C15_optimize_routed", "C15_optimizer_never_foreign", "C15_stack_lists_complete",
-            "C15_mds_export_no_ub", "C15_mds_export_routed", "C15_pipeline_total_partial", "C15_pipeline_total_mds_partial", "C15_pipeline_terminates",
+            "C15_mds_export_no_ub", "C15_mds_export_routed", "C15_link_stage_kinds", "C15_pipeline_total_partial", "C15_pipeline_total_mds_partial", "C15_pipeline_terminates",
             "C15_modelled_components_never_foreign"]
 LEVEL = "other"
 STREAM = "total"
